@@ -72,7 +72,7 @@ theorem question_ok (env : Env) (m : Msg) :
       simp only
       have hq' := handleReq_questions env { q0 with name := lowerName q0.name }
       -- the OPT fix-up does not touch the question section
-      have hquestions : ∀ (x : Msg), (if (m.additionals.any fun r => r.rtype == typeOPT) = true then addOrReplaceOpt x else removeEDNS0 x).questions = x.questions := by
+      have hquestions : ∀ (x : Msg), (if queryHasOptAny m = true then addOrReplaceOpt x else removeEDNS0 x).questions = x.questions := by
         intro x; split <;> simp [addOrReplaceOpt, removeEDNS0]
       simp only [hquestions]
       rcases hq' with hq' | ⟨rq, hq', hc, ht, hn'⟩
@@ -118,12 +118,13 @@ theorem upstream_failure_servfail (env : Env) (q : Question) (r : Rule) (u : Nat
     | err => simp [makeEmptyResp]
     | panic => simp [makeEmptyResp]
 
-/-- The rcode of a relayed reply is the upstream's (error rcodes are answers, not failures). -/
+/-- The rcode of a relayed reply is the upstream's (error rcodes are answers, not failures): the reply is
+    relayed as it is but for its OPT records (`dnsmsg.RemoveEDNS0`: every OPT of every section goes). -/
 theorem relayed_rcode (env : Env) (q : Question) (r : Rule) (u : Nat) (resp : Msg) (wire : Bytes)
     (h : env.rules.find? (fun r => r.applies q.name) = some r) (hr : r.reject = 0) (hu : r.upstream = some u)
     (hp : packReq env q = .ok wire)
     (hup : env.ups[u]? = some (.reply resp)) (hq : isRespOfQuestion resp q = true) :
-    (handleReq env q).1 = removeEDNS0 resp := by
+    (handleReq env q).1 = stripOpt resp := by
   unfold handleReq
   rw [find_spec, h]
   cases hj : env.rules.findIdx? (fun r => r.applies q.name) with
@@ -135,8 +136,8 @@ theorem relayed_rcode (env : Env) (q : Question) (r : Rule) (u : Nat) (resp : Ms
   | some j => simp [hr, hu, hp, hup, hq]
 
 /-- non-vacuity: an opcode-5 query gets NOTIMP with its own ID -/
-example : (handle ⟨false, .none, [], []⟩ ⟨⟨77, false, 5, false, false, true, false, false, false, 0⟩, [⟨[1, 97], 1, 1⟩], [], [], []⟩).resp.hdr
-    = ⟨77, true, 5, false, false, true, true, false, false, 4⟩ := by decide
+example : (handle ⟨false, .none, [], []⟩ ⟨{ emptyHdr with id := 77, opcode := 5, rd := true }, [⟨[1, 97], 1, 1⟩], [], [], []⟩).resp.hdr
+    = { emptyHdr with id := 77, response := true, opcode := 5, rd := true, ra := true, rcode := 4 } := by decide
 
 /-! ### The model meets the executable specification
 
@@ -147,36 +148,35 @@ example : (handle ⟨false, .none, [], []⟩ ⟨⟨77, false, 5, false, false, t
   address.  Proof: Lemmas/RouterSpecReq.lean (the forwarded bytes decode back to `reqMsg`, through the C02 round
   trip) and Lemmas/RouterSpecMain.lean (`spec` cut at its joints, one lemma per path).
 
-  Hypotheses — each is needed (counterexamples below), each is decidable (`specHyps`):
+  Hypotheses — both are needed (counterexamples below), both are decidable (`specHyps`):
    * the query's questions are well formed (`questionWF`: scannable name of ≤ 254 octets, 16-bit type and class)
      — true for every query the decoder accepts (`C02.unpackMsg_wf`); without it `packReq` fails or re-decodes to
      another question.  Nothing else of `msgWF m` is used (no range condition on the header, no condition on
      the query's records);
    * reject codes fit the 4-bit RCODE field: the model answers `reject` itself, the specification expects what
-     survives the wire header, `reject % 16`;
-   * an upstream reply carries at most TWO OPT records (weaker than C12's `UpsOneOpt`): `forward` removes one
-     and the EDNS0 fix-up of `handleReqMsg` another one; a third would reach the client. -/
+     survives the wire header, `reject % 16` (start-up validation refuses reject codes outside 0..15).
+  There is NO hypothesis on the upstream replies any more: `dnsmsg.RemoveEDNS0` (`stripOpt`) removes every OPT
+  record of every section of a relayed reply, so whatever the upstream sends, only the proxy's own OPT (or none)
+  reaches the client — and an OPT anywhere in the query counts as "the query contained one". -/
 
 /-- what `spec` says about the model's own answer -/
 def judged (env : Env) (m : Msg) : String :=
   RouterIO.spec env m ⟨(handle env m).resp, (handle env m).forwards⟩
 
-/-- ★★ `model_meets_spec`: for every environment and every query — questions well formed, reject codes < 16,
-    at most two OPT records per upstream reply — the executable specification judges the model's answer
-    and its upstream traffic "ok". -/
+/-- ★★ `model_meets_spec`: for every environment (any upstream replies whatsoever) and every query — questions
+    well formed, reject codes < 16 — the executable specification judges the model's answer and its upstream
+    traffic "ok". -/
 theorem model_meets_spec (env : Env) (m : Msg)
     (hq : ∀ q ∈ m.questions, questionWF q = true)
-    (hrej : ∀ ru ∈ env.rules, ru.reject < 16)
-    (hups : ∀ (u : Nat) (resp : Msg), env.ups[u]? = some (UpOutcome.reply resp) → countOpt resp.additionals ≤ 2) :
+    (hrej : ∀ ru ∈ env.rules, ru.reject < 16) :
     RouterIO.spec env m ⟨(handle env m).resp, (handle env m).forwards⟩ = "ok" :=
-  spec_model env m hq hrej hups
+  spec_model env m hq hrej
 
 /-- the same for a query the decoder accepted (`msgWF`, see `C02.unpackMsg_wf`) -/
 theorem model_meets_spec_wf (env : Env) (m : Msg) (hm : msgWF m = true)
-    (hrej : ∀ ru ∈ env.rules, ru.reject < 16)
-    (hups : ∀ (u : Nat) (resp : Msg), env.ups[u]? = some (UpOutcome.reply resp) → countOpt resp.additionals ≤ 2) :
+    (hrej : ∀ ru ∈ env.rules, ru.reject < 16) :
     judged env m = "ok" :=
-  spec_model env m (msgWF_parts hm).2.1 hrej hups
+  spec_model env m (msgWF_parts hm).2.1 hrej
 
 /-- ★ Unsupported queries need no hypothesis at all. -/
 theorem model_meets_spec_unsupported (env : Env) (m : Msg) (h : ¬ supported m) : judged env m = "ok" := by
@@ -188,34 +188,23 @@ theorem model_meets_spec_unsupported (env : Env) (m : Msg) (h : ¬ supported m) 
     exact absurd ⟨h1, h2, h3, by rw [h4]; rfl⟩ h
 
 /-- ★ The sharpest form: each hypothesis only for the path the query really takes — `ru` is the deciding
-    (first applicable) rule; the question must be well formed only if `ru` forwards, and only a reply that is
-    actually relayed (selected upstream, right question) is limited to two OPT records. -/
+    (first applicable) rule; the question must be well formed only if `ru` forwards. -/
 theorem model_meets_spec_path (env : Env) (m : Msg) (q0 : Question) (hs : supported m) (hq : m.questions = [q0])
     (hwf : ∀ ru u, env.rules.find? (fun r => r.applies (lowerName q0.name)) = some ru → ru.reject = 0 →
       ru.upstream = some u → questionWF q0 = true)
-    (hrej : ∀ ru, env.rules.find? (fun r => r.applies (lowerName q0.name)) = some ru → ru.reject < 16)
-    (hups : ∀ ru u resp, env.rules.find? (fun r => r.applies (lowerName q0.name)) = some ru → ru.reject = 0 →
-      ru.upstream = some u → env.ups[u]? = some (.reply resp) →
-      isRespOfQuestion resp ⟨lowerName q0.name, q0.qtype, q0.qclass⟩ = true → countOpt resp.additionals ≤ 2) :
+    (hrej : ∀ ru, env.rules.find? (fun r => r.applies (lowerName q0.name)) = some ru → ru.reject < 16) :
     judged env m = "ok" := by
-  refine spec_model_supported env m q0 ?_ hq hwf hrej hups
+  refine spec_model_supported env m q0 ?_ hq hwf hrej
   obtain ⟨h1, h2, h3, h4⟩ := hs
   simp [notImpl, h1, h2, h3, h4]
 
-/-- the three hypotheses of `model_meets_spec` as one decidable check -/
+/-- the two hypotheses of `model_meets_spec` as one decidable check -/
 def specHyps (env : Env) (m : Msg) : Bool :=
-  m.questions.all questionWF && env.rules.all (fun ru => decide (ru.reject < 16)) &&
-    env.ups.all (fun o => match o with
-      | .reply resp => decide (countOpt resp.additionals ≤ 2)
-      | .fail => true)
+  m.questions.all questionWF && env.rules.all (fun ru => decide (ru.reject < 16))
 
 theorem model_meets_spec_dec (env : Env) (m : Msg) (h : specHyps env m = true) : judged env m = "ok" := by
   simp only [specHyps, Bool.and_eq_true, List.all_eq_true, decide_eq_true_eq] at h
-  obtain ⟨⟨h1, h2⟩, h3⟩ := h
-  refine spec_model env m h1 h2 ?_
-  intro u resp hu
-  have := h3 _ (List.mem_of_getElem? hu)
-  simpa using this
+  exact spec_model env m h.1 h.2
 
 /-- ★ Key sub-lemma: the query bytes `packReq` produces for a well-formed question always exist and decode
     back to exactly `reqMsg env q` — RD set, that one question, no answer/authority records and the proxy's own
@@ -247,34 +236,55 @@ theorem prefetch_forward_ok' (env : Env) (q0 : Question) (hq : questionWF q0 = t
 
 /-- `www.Example.com` -/
 def exName : Name := [3, 119, 119, 119, 7, 69, 120, 97, 109, 112, 108, 101, 3, 99, 111, 109]
-/-- a query: RD, one question (mixed case), an OPT with the DO bit and a 4096-octet buffer, plus a non-OPT record -/
-def exQuery (name : Name) : Msg :=
-  ⟨⟨0xBEEF, false, 0, false, false, true, false, true, false, 0⟩, [⟨name, 28, 1⟩], [], [],
-    [⟨[], 41, 4096, 32768, .raw [0, 10, 0, 2, 1, 2]⟩, ⟨[1, 120], 16, 1, 5, .raw [1, 65]⟩]⟩
+/-- a query: RD, AD, one question (mixed case), and the given authority and additional sections -/
+def exQueryWith (name : Name) (auth adds : List Resource) : Msg :=
+  ⟨{ emptyHdr with id := 0xBEEF, rd := true, ad := true }, [⟨name, 28, 1⟩], [], auth, adds⟩
+/-- the client's OPT: DO bit, 4096-octet buffer, a cookie option -/
+def exClientOpt : Resource := ⟨[], 41, 4096, 32768, .raw [0, 10, 0, 2, 1, 2]⟩
+/-- the usual query: its OPT, plus a non-OPT record, in the additional section -/
+def exQuery (name : Name) : Msg := exQueryWith name [] [exClientOpt, ⟨[1, 120], 16, 1, 5, .raw [1, 65]⟩]
 def exOpt (size : Nat) : Resource := ⟨[], 41, size, 0, .raw []⟩
-/-- an upstream reply to `exQuery` with `adds` as its additional section -/
-def exReply (adds : List Resource) : Msg :=
-  ⟨⟨7, true, 0, false, false, true, true, false, false, 3⟩,
-    [⟨[3, 119, 119, 119, 7, 101, 120, 97, 109, 112, 108, 101, 3, 99, 111, 109], 28, 1⟩], [],
-    [⟨[3, 99, 111, 109], 6, 1, 60, .soa [1, 97] [1, 98] 1 2 3 4 5⟩], adds⟩
+def exTxt : Resource := ⟨[1, 120], 16, 1, 5, .raw []⟩
+def exSoa : Resource := ⟨[3, 99, 111, 109], 6, 1, 60, .soa [1, 97] [1, 98] 1 2 3 4 5⟩
+/-- an upstream reply (NXDOMAIN) to `exQuery` with the given answer, authority and additional sections -/
+def exReplyWith (ans auth adds : List Resource) : Msg :=
+  ⟨{ emptyHdr with id := 7, response := true, rd := true, ra := true, rcode := 3 },
+    [⟨[3, 119, 119, 119, 7, 101, 120, 97, 109, 112, 108, 101, 3, 99, 111, 109], 28, 1⟩], ans, auth, adds⟩
 /-- a shared domain set (`org`, `example.net`), a reverse rule, a reject rule, ECS on, an IPv4-mapped client -/
-def exEnv (reject : Nat) (adds : List Resource) : Env :=
+def exEnvWith (reject : Nat) (reply : Msg) : Env :=
   let set : List Name := [[3, 111, 114, 103], [7, 101, 120, 97, 109, 112, 108, 101, 3, 110, 101, 116]]
   { ecs := true, addr := .v6 [0, 0, 0, 0, 0, 0, 0, 0, 0, 0, 255, 255, 192, 0, 2, 77]
     rules := [⟨some set, false, 0, some 1⟩, ⟨some [[3, 99, 111, 109]], true, reject, none⟩, ⟨some set, true, 0, some 0⟩,
       ⟨none, false, 5, none⟩]
-    ups := [.reply (exReply adds), .fail] }
+    ups := [.reply reply, .fail] }
+def exEnv (reject : Nat) (adds : List Resource) : Env := exEnvWith reject (exReplyWith [] [exSoa] adds)
 
 /-- the hypotheses hold for a non-trivial environment and query: third rule (reverse of a shared set) forwards to
-    upstream 0, whose reply (NXDOMAIN, two OPT records and another record) is relayed … -/
-example : specHyps (exEnv 3 [exOpt 1232, ⟨[1, 120], 16, 1, 5, .raw []⟩, exOpt 512]) (exQuery exName) = true := by decide
+    upstream 0, whose reply (NXDOMAIN, three OPT records and another record) is relayed … -/
+example : specHyps (exEnv 3 [exOpt 1232, exTxt, exOpt 512, exOpt 513]) (exQuery exName) = true := by decide
 /-- … so the specification accepts what the model does with it -/
-example : judged (exEnv 3 [exOpt 1232, ⟨[1, 120], 16, 1, 5, .raw []⟩, exOpt 512]) (exQuery exName) = "ok" :=
+example : judged (exEnv 3 [exOpt 1232, exTxt, exOpt 512, exOpt 513]) (exQuery exName) = "ok" :=
   model_meets_spec_dec _ _ (by decide)
 /-- … and on that path the model really relays NXDOMAIN with the proxy's own OPT only -/
-example : (handle (exEnv 3 [exOpt 1232, ⟨[1, 120], 16, 1, 5, .raw []⟩, exOpt 512]) (exQuery exName)).resp.hdr.rcode = 3 ∧
-    (handle (exEnv 3 [exOpt 1232, ⟨[1, 120], 16, 1, 5, .raw []⟩, exOpt 512]) (exQuery exName)).resp.additionals
-      = [⟨[1, 120], 16, 1, 5, .raw []⟩, exOpt 1200] := by decide
+example : (handle (exEnv 3 [exOpt 1232, exTxt, exOpt 512, exOpt 513]) (exQuery exName)).resp.hdr.rcode = 3 ∧
+    (handle (exEnv 3 [exOpt 1232, exTxt, exOpt 512, exOpt 513]) (exQuery exName)).resp.additionals
+      = [exTxt, exOpt 1200] := by decide
+
+/-- OPT records in the answer AND authority AND additional sections of the upstream reply, and a query whose only
+    OPT record sits in its authority section: the hypotheses hold, the specification accepts the model … -/
+def exEnvAll : Env :=
+  exEnvWith 3 (exReplyWith [exOpt 1, ⟨[1, 97], 1, 1, 60, .a [192, 0, 2, 1]⟩, exOpt 2] [exOpt 3, exSoa] [exTxt, exOpt 1232, exOpt 4])
+def exQueryAuthOpt : Msg := exQueryWith exName [exClientOpt] [exTxt]
+example : judged exEnvAll exQueryAuthOpt = "ok" := model_meets_spec_dec _ _ (by decide)
+/-- … and the model's answer: every upstream OPT of every section is gone, the other records are relayed in
+    order, and because the query had an OPT (if only in the authority section) the proxy's own OPT is attached -/
+example : (handle exEnvAll exQueryAuthOpt).resp.answers = [⟨[1, 97], 1, 1, 60, .a [192, 0, 2, 1]⟩] ∧
+    (handle exEnvAll exQueryAuthOpt).resp.authorities = [exSoa] ∧
+    (handle exEnvAll exQueryAuthOpt).resp.additionals = [exTxt, exOpt 1200] := by decide
+/-- the same reply for a query without any OPT: no OPT at all in the answer -/
+example : judged exEnvAll (exQueryWith exName [] [exTxt]) = "ok" ∧
+    (handle exEnvAll (exQueryWith exName [] [exTxt])).resp.additionals = [exTxt] :=
+  ⟨model_meets_spec_dec _ _ (by decide), by decide⟩
 
 /-- necessity 1 — an ill-formed question (a label running past the end of the name, which no decoded query can
     contain): `packReq` fails, nothing is forwarded, the specification objects -/
@@ -282,9 +292,6 @@ example : judged { exEnv 3 [] with rules := [⟨none, false, 0, some 0⟩] } (ex
     = "viol:C10:not-forwarded" := by decide
 /-- necessity 2 — a reject code ≥ 16 (`test.de` hits the second rule): the model answers 19, the wire can only carry 3 -/
 example : judged (exEnv 19 []) (exQuery [4, 116, 101, 115, 116, 2, 100, 101]) = "viol:C10:reject-rcode" := by decide
-set_option maxRecDepth 100000 in
-/-- necessity 3 — a relayed reply with three OPT records: one of the upstream's OPTs reaches the client -/
-example : judged (exEnv 3 [exOpt 1232, exOpt 512, exOpt 513]) (exQuery exName) = "viol:C12:opt-count" := by decide
 
 /-- tie: the NOTIMP predicate, the five header assignments, the request deadline (6 s), the deferred
     "always a response" fallback, the single-question copy and the upstream question check. -/
